@@ -8,7 +8,7 @@ budget = int(sys.argv[4]) if len(sys.argv) > 4 else 600
 mod = runner.load(prop)
 vs, info = mod.run_unit(seed=(prop, 0, idx))
 v = next(v for v in vs if v.oracle == oracle)
-small, sv, n = runner.shrink(mod, info["unit"], (prop, oracle), budget_runs=budget, budget_s=120)
+small, sv, n = runner.shrink(mod, info["unit"], (prop, oracle), budget_runs=budget, budget_s=120, fingerprint=v.fingerprint)
 render, digest, _ = runner.render_unit(mod, small, "quick")
 sv = sv or v
 rf = {"property": prop, "oracle": oracle, "fingerprint": sv.fingerprint, "run_index": idx, "tier": "quick",
